@@ -33,8 +33,15 @@ Sources ==
      [kind |-> "linear", stops |-> << << <<0, 1>>, <<255, 255, 0, 0>> >>, << <<1, 1>>, <<128, 0, 0, 255>> >> >>,
       start |-> <<0, 0>>, end |-> <<4, 0>>, spread |-> "Reflect"] >>
 Alphas == << <<1, 1>>, <<1, 2>>, <<0, 1>> >>
-Opts(k) == [blend |-> Modes[(k % 28) + 1], alpha |-> Alphas[((k \div 28) % 3) + 1], aa |-> (k \div 7) % 3 # 0]
-Src(k) == Sources[((k \div 5) % Len(Sources)) + 1]
+\* independent mixed-radix digits of k: route (4 or 5), blend mode (28), alpha (3), source (7), aa (3), extra (13)
+DRoute(k, n) == (k % 5) % n
+DMode(k)   == (k \div 5) % 28
+DAlpha(k)  == (k \div 140) % 3
+DSrc(k)    == (k \div 420) % 7
+DAA(k)     == (k \div 2940) % 3
+DExtra(k)  == (k \div 8820) % 13
+Opts(k) == [blend |-> Modes[DMode(k) + 1], alpha |-> Alphas[DAlpha(k) + 1], aa |-> DAA(k) # 0]
+Src(k) == Sources[DSrc(k) + 1]
 W == 4
 H == 4
 Full == [op |-> "push_clip_rect", r |-> <<0, 0, W, H>>]
@@ -42,11 +49,11 @@ PopC == [op |-> "pop_clip"]
 
 (*------------------------------- fastpath --------------------------------*)
 FastPair(x, y, w, h, k) ==
-  LET route == k % 4
+  LET route == DRoute(k, 4)
       r == <<x, y, w, h>>
       fr == [op |-> "fill_rect", r |-> r, src |-> Src(k), opts |-> Opts(k)]
-      img == IF k % 2 = 0 THEN Img2 ELSE Img3
-      col == << <<255, 0, 255, 0>>, <<0, 0, 0, 0>>, <<100, 100, 50, 0>> >>[((k \div 13) % 3) + 1]
+      img == IF DExtra(k) % 2 = 0 THEN Img2 ELSE Img3
+      col == << <<255, 0, 255, 0>>, <<0, 0, 0, 0>>, <<100, 100, 50, 0>> >>[(DExtra(k) % 3) + 1]
   IN CASE route = 0 -> [a |-> <<fr>>,
                         b |-> <<[op |-> "fill", path |-> [ops |-> << <<"R", x, y, w, h>> >>], src |-> Src(k), opts |-> Opts(k)]>>]
        [] route = 1 -> [a |-> <<fr>>, b |-> <<Full, fr, PopC>>]
@@ -79,23 +86,23 @@ XformPair(ti, si, k) ==
   LET t == Transforms[ti]
       sing == ti > Len(Transforms) - NSing
       sh == Shapes[si]
-      route == k % 5
-      fillc == [op |-> "fill", path |-> sh, src |-> Sources[(k % 4) + 1], opts |-> Opts(k)]
+      route == DRoute(k, 5)
+      fillc == [op |-> "fill", path |-> sh, src |-> Sources[(DSrc(k) % 4) + 1], opts |-> Opts(k)]
       id == T(<<1, 0, 0, 1, 0, 0>>, 1)
       cr == [op |-> "push_clip_rect", r |-> <<1, 0, 3, 4>>]
       fr == [op |-> "fill_rect", r |-> <<0, 0, 16, 16>>, src |-> Src(k), opts |-> Opts(k)]
-      mk == [op |-> "mask", x |-> (k \div 7) % 3, y |-> ((k \div 11) % 3) - 1, mw |-> 3, mh |-> 2,
-             data |-> MaskData, src |-> Sources[(k % 4) + 1]]
+      mk == [op |-> "mask", x |-> DExtra(k) % 3, y |-> (DAA(k) % 3) - 1, mw |-> 3, mh |-> 2,
+             data |-> MaskData, src |-> Sources[(DSrc(k) % 4) + 1]]
       csops == <<"copy_surface", "blend_surface", "blend_surface_with_alpha">>
-      cs == [op |-> csops[((k \div 7) % 3) + 1],
-             img |-> Img3, rect |-> <<0, 0, 3, 2>>, dst |-> <<((k \div 11) % 4) - 1, ((k \div 13) % 4) - 1>>,
-             blend |-> Modes[(k % 28) + 1], alpha |-> <<1, 2>>]
-  IN IF sing THEN [a |-> <<t, IF k % 2 = 0 THEN fillc
+      cs == [op |-> csops[DAA(k) + 1],
+             img |-> Img3, rect |-> <<0, 0, 3, 2>>, dst |-> <<(DExtra(k) % 4) - 1, (DAlpha(k) % 4) - 1>>,
+             blend |-> Modes[DMode(k) + 1], alpha |-> <<1, 2>>]
+  IN IF sing THEN [a |-> <<t, IF DExtra(k) % 2 = 0 THEN fillc
                                ELSE [op |-> "fill_rect", r |-> <<1, 1, 8, 8>>, src |-> Src(k), opts |-> Opts(k)]>>,
                    b |-> <<>>]
      ELSE CASE route \in {0, 1} -> [a |-> <<t, fillc>>,
                                    b |-> <<[op |-> "fill", path |-> sh, pretransform |-> [m |-> t.m, mden |-> t.mden],
-                                            src |-> Sources[(k % 4) + 1], opts |-> Opts(k)]>>]
+                                            src |-> Sources[(DSrc(k) % 4) + 1], opts |-> Opts(k)]>>]
             [] route = 2 -> [a |-> <<t, cr, id, fr, PopC>>, b |-> <<cr, fr, PopC>>]
             [] route = 3 -> [a |-> <<t, mk>>, b |-> <<mk>>]
             [] route = 4 -> [a |-> <<t, cs>>, b |-> <<cs>>]
@@ -105,9 +112,10 @@ Init ==
   THEN a1 \in XMIN..XMAX /\ a2 \in XMIN..XMAX /\ a3 \in WMIN..WMAX /\ a4 \in WMIN..WMAX
   ELSE a1 \in 1..Len(Transforms) /\ a2 \in 1..Len(Shapes) /\ a3 \in 0..(EnvInt("NK", 6) - 1) /\ a4 = 0
 Next == FALSE /\ UNCHANGED vars
-H0 == ((a1 + 9) * 31 + (a2 + 9) * 17 + (a3 + 9) * 13 + (a4 + 9) * 7 + SALT * 101) % 100003
+\* a scrambled index: successive j, and neighbouring rectangles, reach unrelated digit combinations
+H0 == ((a1 + 9) * 7919 + (a2 + 9) * 104729 + (a3 + 9) * 1299709 + (a4 + 9) * 15485863 + SALT * 101) % 114661
 Scen(j) ==
-  LET k == H0 + 7919 * j
+  LET k == (H0 * 31 + 28657 * j) % 114660
       pr == IF KIND = "fastpath" THEN FastPair(a1, a2, a3, a4, k) ELSE XformPair(a1, a2, k + a3 * 37)
   IN [id |-> ToString(<<"gr", KIND, a1, a2, a3, a4, j>>), fam |-> "routes", w |-> W, h |-> H,
       den |-> IF KIND = "fastpath" THEN 1 ELSE 4, init |-> "distinct", a |-> pr.a, b |-> pr.b]
